@@ -812,6 +812,12 @@ func parseSpecText(file, pkgPath, src string, sp *Specs) (err error) {
 			params := p.parseParams()
 			p.expectOp("=")
 			body := p.parseExpr()
+			if old, dup := sp.Preds[name]; dup {
+				p.fail("predicate %q is already defined (in package %s)", name, old.PkgPath)
+			}
+			if _, dup := sp.SpecFns[name]; dup {
+				p.fail("%q is already defined as a spec function", name)
+			}
 			sp.Preds[name] = &PredSpec{name, params, body, pkgPath}
 		case "spec":
 			name := p.ident()
@@ -836,6 +842,9 @@ func parseSpecText(file, pkgPath, src string, sp *Specs) (err error) {
 				p.next()
 				f.Body = p.parseExpr()
 			}
+			if old, dup := sp.SpecFns[name]; dup {
+				p.fail("spec function %q is already defined (in package %s); names of spec functions, predicates and ghosts are global", name, old.PkgPath)
+			}
 			sp.SpecFns[name] = f
 		case "ghost":
 			name := p.ident()
@@ -845,6 +854,9 @@ func parseSpecText(file, pkgPath, src string, sp *Specs) (err error) {
 			if p.isId("initzero") {
 				p.next()
 				g.InitZero = true
+			}
+			if old, dup := sp.Ghosts[name]; dup {
+				p.fail("ghost %q is already defined (in package %s)", name, old.PkgPath)
 			}
 			sp.Ghosts[name] = g
 		case "axiom":
